@@ -7,6 +7,7 @@ pub mod c05;
 pub mod c06;
 pub mod c12;
 pub mod c13;
+pub mod c16;
 pub mod common;
 
 pub fn level_of(prop: &str) -> &'static str {
@@ -24,6 +25,7 @@ pub fn run(prop: &str, rep: &Report) {
         "C06" => c06::run(rep),
         "C12" => c12::run(rep),
         "C13" => c13::run(rep),
+        "C16" => c16::run(rep),
         _ => rep.machinery_error(format!("no check for {prop}")),
     }
 }
@@ -34,6 +36,7 @@ pub fn replay(case: &Value) -> Vec<Violation> {
         "weak_selection" => c06::replay_weak(case),
         "c12_order" => c12::replay_order(),
         "reserved" => c13::replay(case),
+        "c16" => c16::replay(case),
         k => {
             eprintln!("replay: unknown case kind {k}");
             vec![]
@@ -41,7 +44,12 @@ pub fn replay(case: &Value) -> Vec<Violation> {
     }
 }
 
-pub fn worker(_args: &[String]) {
-    eprintln!("no worker mode yet");
-    std::process::exit(2);
+pub fn worker(args: &[String]) {
+    match args.first().map(|s| s.as_str()) {
+        Some("C16") => c16::worker(&args[1..]),
+        _ => {
+            eprintln!("unknown worker kind");
+            std::process::exit(2);
+        }
+    }
 }
